@@ -162,6 +162,8 @@ func DigestManifest(manifest []byte, hash crypto.Hash, sectionsOnly, apkV2 bool)
 	sections, malformed := splitManifest(manifest)
 	if malformed {
 		return nil, ErrManifestLineEndings
+	} else if len(sections) == 0 {
+		return nil, errors.New("manifest is empty")
 	}
 	hashName := x509tools.HashNames[hash]
 	if hashName == "" {
